@@ -118,6 +118,9 @@ static char *ref_word2(const char *s)
     w[n] = 0;
     return n ? w : NULL;
 }
+/* the magic first line names the program: "<NAME-VERSION>", NAME as set last (the program may rename itself between two parses) */
+static char ref_magic[40] = "<simrun-";
+static int prog_on_heap;
 static void ref_file(const char *path, int is_root);
 static void ref_line(char *s)
 {
@@ -195,7 +198,7 @@ static void ref_file(const char *path, int is_root)
         pos = e;
         if (first) {
             first = 0;
-            if (strncasecmp(line, "<simrun-", 8)) { ref_include_fail++; if (!is_root) ref_include_depth--; return; }   /* no magic: file rejected */
+            if (strncasecmp(line, ref_magic, strlen(ref_magic))) { ref_include_fail++; if (!is_root) ref_include_depth--; return; }   /* no magic: file rejected */
             continue;
         }
         if (!nl) { ref_eof_nonl++; if (!ref_deliver_unterminated) break; }    /* last line without a newline: whether it counts as a line is left open (both readings are accepted, consistently per parse) */
@@ -258,6 +261,7 @@ void conf_env_setup(const plan_t *p)
 {
     long v1 = plan_get(p, "env.v1len", 0), hl = plan_get(p, "env.homelen", 0), td = plan_get(p, "tmpdir", 0);
     clearenv(); setenv("LC_ALL", "C", 1);          /* (whatever an earlier pass or cycle set is gone) */
+    simfs_set_call_failures((int)plan_get(p, "fdopen.fail", 0), (int)plan_get(p, "fchmod.fail", 0));
     setenv("HOME", "/home/u", 1); setenv("V1", "val-one", 1); setenv("EMPTY", "", 1); setenv("LONG_name_9", "L", 1);
     if (v1 > 0 && v1 <= 70000) { char *b = malloc((size_t)v1 + 1); memset(b, 'w', (size_t)v1); b[v1] = 0; setenv("V1", b, 1); free(b); probe_hit("long_env_value"); }
     if (hl > 0 && hl <= 70000) { char *b = malloc((size_t)hl + 3); b[0] = '/'; memset(b + 1, 'h', (size_t)hl); b[hl + 1] = 0; setenv("HOME", b, 1); free(b); probe_hit("long_home"); }
@@ -330,10 +334,22 @@ static void exec_c09(const plan_t *p)
     conf_env_setup(p);
     spifconf_init_subsystem();
     check_indices = 1;
+    strcpy(ref_magic, "<simrun-"); prog_on_heap = 0;
     for (int i = 0; i < p->nops; i++) {
         op_t *o = (op_t *)&p->ops[i];
         const char *k = o->kind;
         R.cur_op = o; R.cur_op_index = i; R.op_steps = 0;
+        if (!strcmp(k, "progname") && o->has_s && o->slen && o->slen < 24) {
+            /* the program (re)names itself: from now on a file must carry the new name in its first line */
+            char nm[32];
+            snprintf(nm, sizeof(nm), "%.*s", (int)o->slen, (const char *)o->s);
+            for (char *q = nm; *q; q++) if (!isalnum((unsigned char)*q)) *q = 'x';
+            if (!prog_on_heap) libast_program_name = (spif_charptr_t)NULL;      /* (the harness's own initial name is not the library's to free) */
+            libast_set_program_name(nm);
+            prog_on_heap = 1;
+            snprintf(ref_magic, sizeof(ref_magic), "<%s-", nm);
+            probe_hit("program_renamed");
+        } else
         if (!strcmp(k, "file") && o->has_s && o->has_t) {
             char nm[128];
             snprintf(nm, sizeof(nm), "%.*s", (int)(o->slen < 120 ? o->slen : 120), (const char *)o->s);
@@ -510,6 +526,26 @@ static void gen_c09(plan_t *p, rng_t *r)
                  op_fault(o, FAULT(FC_OPEN, out, out == FO_FULL && rng_chance(r, 1, 3) ? 1 : 0)); }
       } }
     if (rng_chance(r, 1, 6)) { o = plan_op(p, 0, "parse", 1, 0L); op_str(o, "root.cfg", 8); }
+    if (rng_chance(r, 1, 8)) {
+        /* the program takes another name (once or twice) and reads a file written for that name; files written for the old name are
+           now somebody else's */
+        static const char *names[] = { "bravo1", "Simrun", "simrum", "x", "simrun2", "averylongprogramname", "simrun" };
+        int times = rng_range(r, 1, 2);
+        const char *nm = "simrun";
+        for (int t = 0; t < times; t++) {
+            nm = names[rng_below(r, 7)];
+            o = plan_op(p, 0, "progname", 0); op_str(o, nm, strlen(nm));
+            if (rng_chance(r, 1, 3)) { o = plan_op(p, 0, "parse", 1, 0L); op_str(o, "root.cfg", 8); }
+        }
+        gb_reset();
+        gb_add("<%s-1.0>\n", nm);
+        for (int q = rng_range(r, 1, 6); q > 0; q--) {
+            int c = (int)rng_below(r, 10);
+            if (c < 5) gen_text_line(r); else if (c < 7) gb_add("begin c%d\n", rng_range(r, 1, nreg > 0 ? nreg : 1)); else if (c < 8) gb_add("end\n"); else gb_add("%%include %s\n", rng_chance(r, 1, 2) ? "f0.cfg" : "f1.cfg");
+        }
+        o = plan_op(p, 0, "file", 0); op_str(o, "root2.cfg", 9); op_str2(o, gbuf, gbuf_len);
+        o = plan_op(p, 0, "parse", 1, 0L); op_str(o, "root2.cfg", 9);
+    }
     (void)nfiles;
 }
 
